@@ -143,6 +143,9 @@ func (t *Table) Conflicts(row Row, skip int, kc KeyCmp) []int {
 			}
 		}
 	}
+	if len(hidden) > 0 {
+		t.shadowed = true
+	}
 	var out []int
 	for i, r := range t.Rows {
 		if i == skip {
@@ -150,11 +153,8 @@ func (t *Table) Conflicts(row Row, skip int, kc KeyCmp) []int {
 		}
 		for k := range t.Keys {
 			if t.Keys[k].Unique && t.KeyEq(&t.Keys[k], row, r, kc) {
-				if hidden[k] {
-					t.shadowed = true
-					if kc.ShadowByDeletes {
-						continue
-					}
+				if hidden[k] && kc.ShadowByDeletes {
+					continue
 				}
 				out = append(out, i)
 				break
@@ -607,7 +607,7 @@ type Outcome struct {
 	MultiDelete    bool  // REPLACE deleted >= 2 rows for one new row
 	ConcatCollide  bool  // two different PK tuples touched by the statement print to the same concatenation (F2)
 	TransientOrder bool  // UPDATE of a key column processed in ORDER BY order
-	Shadowed       bool  // a unique-key check met a row deleted/updated earlier in the same statement with the same key value
+	Shadowed       bool  // a row processed by the statement agrees on a unique (non-primary) key with a row version deleted or updated EARLIER in the same statement
 }
 
 func (o *Outcome) AffText() string {
@@ -924,16 +924,17 @@ func (t *Table) applyInsert(st *Stmt, kc KeyCmp, out *Outcome, tc *touched) {
 					done[a.Col] = true
 				}
 				if nw.Same(old) {
+					t.tomb = append(t.tomb, old) // the engine deletes and re-adds the row even when nothing changes
 					out.Unchanged++
 					continue
 				}
 				tc.add(old)
 				tc.add(nw)
-				t.tomb = append(t.tomb, old)
 				if c2 := t.Conflicts(nw, conf[0], kc); len(c2) > 0 {
 					out.Err = ErrDup
 					return
 				}
+				t.tomb = append(t.tomb, old)
 				t.Rows[conf[0]] = nw
 				out.Updated++
 				out.AffMin += 2
@@ -1038,10 +1039,10 @@ func (t *Table) applyUpdate(st *Stmt, kc KeyCmp, out *Outcome, tc *touched) {
 		if rowErr == "" && !nw.Same(old) {
 			tc.add(old)
 			tc.add(nw)
-			t.tomb = append(t.tomb, old)
 			if touchesKey && len(t.Conflicts(nw, i, kc)) > 0 {
 				rowErr = ErrDup
 			}
+			t.tomb = append(t.tomb, old)
 		}
 		if rowErr != "" {
 			errs[rowErr] = true
